@@ -33,6 +33,18 @@ Audit additions (classes of inputs inside the quantifier that were not generated
   integer arrays, windows that keep 0 / 1 / 2 samples or are reversed, windows / thresholds / flags in other spellings (list,
   ndarray, ints, numpy scalars, a threshold OBJECT re-used by the caller), options that are given but do nothing, and the other
   public entry points that report peaks: `TimeSeries.stats(include_sample)` and `qats.app.funcs.calculate_trace`.
+* processed signals (stream `proc`, kind "proc"): peaks asked for TOGETHER WITH processing options.  Real-valued records (two sines +
+  noise, 48..400 samples, uniform and non-uniform time steps, large means, decimal-quantised) and a history of 2..4 queries on one
+  series: `qats.app.funcs.calculate_trace(container, twin, fargs)` (one or two different records in the container, the window the GUI
+  passes when nothing is selected), `TimeSeries.maxima / minima(twin, local, threshold, rettime, **options)`,
+  `TimeSeries.stats(include_sample, **options)` and `calculate_stats(..., fargs)` with options = low / high / band-pass / band-stop /
+  threshold-pass filter, resampling to another step, smoothing (all windows), tapering, and pairs of them.  The signal is then the
+  processed trace (the one calculate_trace returns next to the peaks; `TimeSeries.get` with the same options for the methods, which
+  document that they pass the options to it).  Clauses: every reported time is a time of that trace and the value is the trace value
+  there bit for bit; ascending; the result is exactly the reference (excursion peaks / interior peaks, threshold, mirrored for minima)
+  evaluated in exact rationals on the trace samples (skipped when a sample is within rounding of the mean); the series is left as it
+  was.  A third of the cases also put the trace samples to the Rat model (pk.max / pk.min).  A combination of options that
+  `TimeSeries.get` itself rejects is counted and skipped.
 * every call of the implementation is wrapped: an exception is a failing clause (or a disagreement for `average_frequency`,
   which is tied to the model only: `up` on/off, non-uniform times, `TimeSeries.average_frequency/average_period`).
 
@@ -41,6 +53,8 @@ Defects of the unchanged tree found by these inputs are reported through the mat
 import itertools
 import math
 import os
+import random
+import warnings
 from fractions import Fraction
 
 import numpy as np
@@ -72,7 +86,11 @@ RULE = ("all words over {0,1,2,3} of length 1..7 (quick) / 9 (thorough) plus see
         "Stream spell: a random 8 % of the (signal, mode, threshold) cases above handed to find_maxima in another container / number "
         "type / argument style, called twice on the same array. Stream float: seeded real-valued signals (sines + noise, walks, "
         "decimal-quantised, slow, large mean, decimal units; length 8..160) x find_maxima / TimeSeries.maxima / minima x local/global "
-        "x thresholds (none, a sample, between samples) x windows; skipped when a sample is within n*2**-52*max|x| of the mean")
+        "x thresholds (none, a sample, between samples) x windows; skipped when a sample is within n*2**-52*max|x| of the mean. "
+        "Stream proc: seeded real-valued records (two sines + noise, 48..400 samples, 30 % non-uniform steps) x histories of 2..4 queries "
+        "(calculate_trace / maxima / minima / stats / calculate_stats) x processing options (lp / hp / bp / bs / tp filter, resample, smoothing, "
+        "taper, pairs) x windows (none, GUI default, inner >= 45 samples); the reference signal is the processed trace; non-trivial = a "
+        "query with at least one option returns an extremum")
 
 
 def canon(vals, idx):
@@ -414,6 +432,208 @@ def eval_float(c):
     except Exception as e:                                  # noqa
         fails.append((NOEXC, [(float(a), b) for a, b in ref], "err:%s:%s" % (type(e).__name__, str(e)[:80])))
         return None, amb, fails
+
+
+# ---- processed signals: peaks queried together with a filter / resampling / smoothing / tapering ------------------------------------
+# The signal of which peaks are reported is then the PROCESSED trace: what `TimeSeries.get` returns for the same options (documented:
+# "additional keyword arguments are passed to get()"), or the trace that `qats.app.funcs.calculate_trace` returns next to its peaks.
+P_POINT = "peaks / troughs reported together with processing options (filter, resampling, smoothing, taper, window) are points of the " \
+          "processed trace (the trace returned by calculate_trace with them / by TimeSeries.get for the same options): reported times are " \
+          "times of that trace and the values are its values at those positions, bit for bit"
+P_REF = "%s %s reported with processing options are exactly the %s of the processed trace (evaluated in exact rationals on its float samples)"
+PROC_VIA = ("trace", "trace", "trace", "maxima", "minima", "minima", "stats", "funcs_stats")
+
+
+def rand_proc_opts(rng, dt, filt_ok=True):
+    """processing options of one query, as a JSON-able dict; frequencies relative to the Nyquist frequency of the average time step"""
+    fn = 0.5 / dt
+    o = {}
+    k = rng.random()
+    if filt_ok and k < 0.7:
+        kind = rng.choice(["lp", "lp", "hp", "hp", "bp", "bs", "tp"])
+        if kind in ("lp", "hp"):
+            o["filterargs"] = [kind, fn * rng.uniform(0.08, 0.6)]
+        elif kind in ("bp", "bs"):
+            o["filterargs"] = [kind, fn * rng.uniform(0.03, 0.15), fn * rng.uniform(0.25, 0.7)]
+        else:
+            o["filterargs"] = ["tp", [rng.choice([0.0, 0.05, 0.2]), rng.choice([1.0, 1.0, 0.9])]]
+    elif k < 0.8:
+        o["resample"] = dt * rng.choice([0.5, 2.0, 1.0, 0.3, 1.7])
+    r = rng.random()
+    if r < 0.2:
+        o["window_len"] = rng.choice([3, 5, 9, 11])
+        o["window"] = rng.choice(["rectangular", "rectangular", "hanning", "hamming", "bartlett", "blackman"])
+    elif r < 0.35:
+        o["taperfrac"] = rng.choice([0.01, 0.1, 0.5])
+    return o
+
+
+def rand_proc_case(rng):
+    """one real-valued record and a short history of peak queries with processing options on the series built from it"""
+    n = rng.choice([48, 64, 100, 160, 256, 400])
+    dt = rng.choice([0.1, 0.05, 0.5, 1.0, 0.25, 0.01])
+    t0 = rng.choice([0.0, 0.0, -1.7, 1000.0])
+    uniform = rng.random() < 0.7
+    if uniform:
+        t = [t0 + i * dt for i in range(n)]
+    else:
+        t = [t0]
+        for _ in range(n - 1):
+            t.append(t[-1] + dt * rng.choice([1, 1, 1, 2, 3]))
+    dta = (t[-1] - t[0]) / (n - 1)
+    fn = 0.5 / dta
+    f1, f2 = fn * rng.uniform(0.02, 0.1), fn * rng.uniform(0.3, 0.9)
+    a1, a2, s = rng.choice([1.0, 2.0, 0.0]), rng.choice([0.0, 0.4, 0.8, 2.0]), rng.choice([0.0, 0.05, 0.3])
+    mean = rng.choice([0.0, 0.0, 10.0, -3.5, 1e4])
+    p1, p2 = rng.uniform(0, 6.3), rng.uniform(0, 6.3)
+    x = [mean + a1 * math.sin(6.283185307179586 * f1 * (v - t0) + p1) + a2 * math.sin(6.283185307179586 * f2 * (v - t0) + p2) + s * rng.gauss(0, 1)
+         for v in t]
+    if rng.random() < 0.2:                                  # decimal-quantised: plateaus and exact ties, also after a moving average
+        x = [round(v, 1) for v in x]
+    sd = (sum((v - sum(x) / n) ** 2 for v in x) / n) ** 0.5
+    steps = []
+    for _ in range(rng.randint(2, 4)):
+        via = rng.choice(PROC_VIA)
+        k = rng.random()
+        if k < 0.4:
+            twin = None
+        elif k < 0.6:
+            twin = [-1e12, 1e12]                            # the window the GUI passes when nothing is selected
+        else:
+            a = rng.randint(0, n - 45)
+            b = rng.randint(a + 44, n - 1)
+            lo = t[a] if (a == 0 or rng.random() < 0.5) else (t[a] + t[a - 1]) / 2
+            hi = t[b] if (b == n - 1 or rng.random() < 0.5) else (t[b] + t[b + 1]) / 2
+            twin = [lo, hi]
+        opts = rand_proc_opts(rng, dta)
+        if via in ("trace", "funcs_stats"):                 # these entry points take a window and a filter only
+            opts = {k_: v for k_, v in opts.items() if k_ == "filterargs"}
+            if not opts and rng.random() < 0.8:
+                opts = rand_proc_opts(rng, dta)
+                opts = {k_: v for k_, v in opts.items() if k_ == "filterargs"}
+        q = rng.random()
+        thr = None if q < 0.5 else rng.choice(x) if q < 0.7 else sum(x) / n + rng.choice([-1, 0, 0.5, 1]) * sd if q < 0.9 else 0.0
+        st = dict(via=via, twin=None if twin is None else [float(twin[0]).hex(), float(twin[1]).hex()], opts=opts)
+        if via in ("maxima", "minima"):
+            st.update(local=rng.random() < 0.4, threshold=None if thr is None else float(thr).hex(), rettime=rng.random() < 0.8)
+        elif via in ("stats", "funcs_stats"):
+            st.update(is_minima=rng.random() < 0.5)
+        else:
+            st.update(container=rng.choice(["one", "one", "two"]))
+        steps.append(st)
+    return dict(kind="proc", x=[float(v).hex() for v in x], t=[float(v).hex() for v in t], steps=steps)
+
+
+def proc_kwargs(opts):
+    kw = dict(opts)
+    if "filterargs" in kw:
+        fa = kw["filterargs"]
+        kw["filterargs"] = tuple(tuple(v) if isinstance(v, list) else v for v in fa)
+    return kw
+
+
+def proc_label(opts):
+    return "+".join(sorted(("filter-" + v[0]) if k == "filterargs" else k for k, v in opts.items() if k != "window")) or "plain"
+
+
+def eval_proc(c, on_fail, want_requests=False):
+    """run the steps of a `proc` case in order on one TimeSeries; on_fail(oracle, step, expected, observed).
+    Returns per step a list of (model request | None, got) where got = sorted (value, position in the processed trace) or
+    ("v", sorted values); entries only for results whose reference is not affected by rounding of the mean."""
+    from qats import TimeSeries
+    from qats.app.funcs import calculate_trace, calculate_stats
+    xf = np.array([float.fromhex(v) for v in c["x"]])
+    tf = np.array([float.fromhex(v) for v in c["t"]])
+    ts = TimeSeries("s", tf.copy(), xf.copy())
+    other = TimeSeries("o", tf.copy(), (xf.mean() - xf)[::-1].copy())        # a second, different record in the same container
+    out = [[] for _ in c["steps"]]
+
+    def check_points(step, q, loc, thr, m, tm, trt, trx, label):
+        """(m, tm) reported for query q against the processed trace (trt, trx)"""
+        m, tm = np.asarray(m, dtype=float), np.asarray(tm, dtype=float)
+        trt, trx = np.asarray(trt, dtype=float), np.asarray(trx, dtype=float)
+        pos = {float(v): i for i, v in enumerate(trt)}
+        if m.shape != tm.shape or m.ndim != 1 or any(float(v) not in pos for v in tm):
+            on_fail(P_POINT, step, "times of the trace (%d samples from %r to %r)" % (len(trt), float(trt[0]), float(trt[-1])),
+                    dict(entry=label, values=m.tolist()[:30], times=tm.tolist()[:30]))
+            return
+        ind = [pos[float(v)] for v in tm]
+        wrong = [(int(i), float(v), float(trx[i])) for v, i in zip(m, ind) if float(trx[i]) != float(v)]
+        if wrong:
+            on_fail(P_POINT, step, "trace values at the reported times", dict(entry=label, position_reported_trace=wrong[:12]))
+            return
+        ma = m if q == "maxima" else -m
+        if any(b < a for a, b in zip(ma, ma[1:])):
+            on_fail(H_ASC, step, "ascending", m.tolist()[:40])
+        xq = [Fraction(float(v)) for v in trx]
+        thq = None if thr is None else Fraction(thr)
+        got = exact_pairs(m, ind)
+        if float_ambiguous(xq, loc):
+            return
+        ref = ref_extrema(xq, q, loc, thq)
+        if got != ref:
+            what = ("local" if loc else "global", q, ("interior %s" if loc else "first-position excursion %s") % ("troughs" if q == "minima" else "peaks"))
+            on_fail(P_REF % what, step, [(float(a), b) for a, b in ref][:40], dict(entry=label, got=[(float(a), b) for a, b in got][:40]))
+            return
+        req = None
+        if want_requests:
+            req = "pk.%s %s %s %s" % ("max" if q == "maxima" else "min", "local" if loc else "global", "-" if thq is None else rat(thq),
+                                      " ".join(rat(v) for v in xq))
+        out[step].append((req, got))
+
+    for step, st in enumerate(c["steps"]):
+        via, kw = st["via"], proc_kwargs(st["opts"])
+        tw = None if st["twin"] is None else (float.fromhex(st["twin"][0]), float.fromhex(st["twin"][1]))
+        fargs = kw.get("filterargs")
+        try:
+            trt, trx = ts.get(twin=tw, **kw)
+        except Exception:                                   # noqa  (a rejected combination of options is not a statement about peaks)
+            out[step] = None
+            continue
+        try:
+            if via == "trace":
+                cont = {"s": ts} if st.get("container") != "two" else {"o": other, "s": ts}
+                res = calculate_trace(cont, tw, fargs)
+                for name in cont:
+                    d = res[name]
+                    check_points(step, "maxima", False, None, d["xmax"], d["tmax"], d["t"], d["x"], name + ":xmax/tmax")
+                    check_points(step, "minima", False, None, d["xmin"], d["tmin"], d["t"], d["x"], name + ":xmin/tmin")
+            elif via in ("stats", "funcs_stats"):
+                q = "minima" if st["is_minima"] else "maxima"
+                if via == "funcs_stats":
+                    s = calculate_stats({"s": ts}, tw, fargs, minima=st["is_minima"])["s"]["sample"]
+                else:
+                    s = ts.stats(include_sample=True, is_minima=st["is_minima"], twin=tw, **kw)["sample"]
+                got = sorted(Fraction(float(v)) for v in np.asarray(s).reshape(-1))
+                xq = [Fraction(float(v)) for v in trx]
+                if not float_ambiguous(xq, False):
+                    ref = sorted(v for v, _ in ref_extrema(xq, q, False, None))
+                    if got != ref:
+                        on_fail(P_REF % ("global", q + " (sample reported by stats)", "excursion " + ("troughs" if st["is_minima"] else "peaks")),
+                                step, [float(a) for a in ref][:40], [float(a) for a in got][:40])
+                    else:
+                        out[step].append((None, ("v", got)))
+            else:
+                thr = None if st["threshold"] is None else float.fromhex(st["threshold"])
+                r = getattr(ts, via)(twin=tw, local=st["local"], threshold=thr, rettime=st["rettime"], **kw)
+                if st["rettime"]:
+                    check_points(step, via, bool(st["local"]), thr, r[0], r[1], trt, trx, via)
+                else:
+                    got = sorted(Fraction(float(v)) for v in np.asarray(r).reshape(-1))
+                    xq = [Fraction(float(v)) for v in trx]
+                    if not float_ambiguous(xq, bool(st["local"])):
+                        ref = sorted(v for v, _ in ref_extrema(xq, via, bool(st["local"]), None if thr is None else Fraction(thr)))
+                        if got != ref:
+                            on_fail(P_REF % ("local" if st["local"] else "global", via, "peaks / troughs (values only)"), step,
+                                    [float(a) for a in ref][:40], [float(a) for a in got][:40])
+                        else:
+                            out[step].append((None, ("v", got)))
+        except Exception as e:                              # noqa
+            on_fail(NOEXC, step, "result (TimeSeries.get returns for the same options)", "err:%s:%s" % (type(e).__name__, str(e)[:80]))
+        if not (np.array_equal(np.asarray(ts.x), xf) and np.array_equal(np.asarray(ts.t), tf)):
+            on_fail(H_INTACT, step, dict(x=xf.tolist()[:20]), dict(x_now=np.asarray(ts.x).tolist()[:20], t_now=np.asarray(ts.t).tolist()[:20]))
+            break
+    return out
 
 
 UNIT_EXP = (-200, -150, -100, -70, -60, -55, -52, -50, -45, -30, -10, 10, 30, 52, 60, 100, 200)
@@ -994,7 +1214,35 @@ def run(chk):
         lines += [q for step in r for q in step]
     n_hist = len(lines)
     lines += [float_request(c) for c in floats]
+    # ---- processed signals: the implementation is run first (its processed trace is the signal the model is asked about) -----------
+    prng = random.Random(chk.seed * 1000003 + 14)            # own stream: the other streams keep the cases they had for this seed
+    procs = [c for c in corpus if c.get("kind") == "proc"] + [rand_proc_case(prng) for _ in range(90 if chk.quick else 500)]
+    n_float = len(lines)
+    proc_model = []
+    for k, c in enumerate(procs):
+        fails = []
+        with warnings.catch_warnings():
+            warnings.simplefilter("ignore")                  # (the distribution fits of stats() on short records)
+            res = eval_proc(c, lambda oracle, step, e, o: fails.append((oracle, step, e, o)), want_requests=(k % 3 == 0))
+        for oracle, step, e, o in fails:
+            chk.fail(oracle, dict(c, steps=c["steps"][:step + 1]), e, o, step=step)
+        chk.count("proc")
+        chk.count("proc.step", len(c["steps"]))
+        for step, (st, r) in enumerate(zip(c["steps"], res)):
+            chk.dist("proc:%s:%s%s" % (st["via"], proc_label(st["opts"]), "" if st["twin"] is None else ":window"))
+            if r is None:
+                chk.dist("proc:options rejected by TimeSeries.get")
+                continue
+            for req, got in r:
+                if req is not None:
+                    proc_model.append((len(lines), dict(c, steps=c["steps"][:step + 1]), got))
+                    lines.append(req)
+            if st["opts"] and any((g[1] if isinstance(g, tuple) else g) for _, g in r) and not fails:
+                chk.nontriv(("proc", tuple(c["x"][:8]), len(c["x"]), step, repr(st)))
     outs = drv.run(lines)
+    for li, inp, got in proc_model:
+        if parse(outs[li]) != got:
+            chk.disagree("pk.proc", inp, [(float(a), b) for a, b in parse(outs[li])][:40], [(float(a), b) for a, b in got][:40])
     for (x, what, loc, thr, sp), o in zip(meta, outs[:n_single]):
         xf = np.array([float(v) for v in x])
         chk.count("pk." + ("max" if what == "spell" else what))
@@ -1112,7 +1360,7 @@ def run(chk):
                     chk.dist("history:extrema found after the caller changed the signal")
             prior.add(op["obj"])
     # ---- noisy real-valued signals --------------------------------------------------------------------------------------------------
-    for c, o in zip(floats, outs[n_hist:]):
+    for c, o in zip(floats, outs[n_hist:n_float]):
         got, amb, fails = eval_float(c)
         chk.count("float")
         chk.dist("float:%s:%s%s" % (c["via"], "local" if c["local"] else "global", ":skipped-near-mean" if amb else ""))
@@ -1182,6 +1430,20 @@ def replay(rp):
             shown = [None if r is None else [(str(a[0]), a[1]) if isinstance(a, tuple) else str(a) for a in r[1]] for r in res]
             print("step %d: %s -> %s" % (step, {k: (v if k != "values" else " ".join(v)) for k, v in op.items() if v is not None and v is not False},
                                          shown[0] if len(shown) == 1 else shown))
+        for oracle, step, e, o in fails:
+            print("FAILS at step %d: %s\n   expected %s\n   observed %s" % (step, oracle, e, o))
+        print("replay: %d failing clause(s)" % len(fails))
+        return 1 if fails else 0
+    if inp.get("kind") == "proc":
+        fails = []
+        res = eval_proc(inp, lambda oracle, step, e, o: fails.append((oracle, step, e, o)))
+        for step, (st, r) in enumerate(zip(inp["steps"], res)):
+            tw = None if st["twin"] is None else (float.fromhex(st["twin"][0]), float.fromhex(st["twin"][1]))
+            shown = "options rejected by TimeSeries.get" if r is None else \
+                [("values", [float(a) for a in g[1]][:12]) if isinstance(g, tuple) else [(float(a), b) for a, b in g][:12] for _, g in r]
+            print("step %d: %s window=%s options=%s %s -> %s" % (
+                step, st["via"], tw, st["opts"], {k: (v if k != "threshold" or v is None else float.fromhex(v)) for k, v in st.items()
+                                                  if k not in ("via", "twin", "opts")}, shown))
         for oracle, step, e, o in fails:
             print("FAILS at step %d: %s\n   expected %s\n   observed %s" % (step, oracle, e, o))
         print("replay: %d failing clause(s)" % len(fails))
